@@ -200,6 +200,18 @@ func (t *sTree) grow(n *kyaml.Node, inMulti bool) {
 		}
 		if t.elems != nil {
 			for _, e := range n.Content {
+				if len(t.keys) > 1 {
+					// any directive below an element of a multi-key list, also under fields the schema does not know
+					allNodes(e, func(x *kyaml.Node) {
+						if x.Kind == kyaml.MappingNode {
+							for i := 0; i+1 < len(x.Content); i += 2 {
+								if x.Content[i].Value == "$patch" {
+									multiKeyDirective = true
+								}
+							}
+						}
+					})
+				}
 				t.elems.grow(e, inMulti || len(t.keys) > 1)
 			}
 		}
